@@ -61,7 +61,20 @@ func (p Polygon) op(p2 Polygonal, op polyclip.Op) Polygon {
 	for _, pp2x := range p2.Polygons() {
 		pp2 = append(pp2, pp2x.toPolyClip()...)
 	}
-	return polyClipToPolygon(pp.Construct(op, pp2))
+	return polyClipToPolygon(pp.Construct(xorOfDisjoint(op, pp, pp2), pp2))
+}
+
+// xorOfDisjoint works around the clipper's shortcut for operands that cannot
+// overlap (one of them is empty or their bounding boxes are disjoint), which
+// returns an empty result for XOR although the symmetric difference of
+// disjoint regions is their union: it returns UNION in that case and op
+// otherwise.
+func xorOfDisjoint(op polyclip.Op, subject, clipping polyclip.Polygon) polyclip.Op {
+	if op == polyclip.XOR && (len(subject) == 0 || len(clipping) == 0 ||
+		!subject.BoundingBox().Overlaps(clipping.BoundingBox())) {
+		return polyclip.UNION
+	}
+	return op
 }
 
 func (p Polygon) toPolyClip() polyclip.Polygon {
